@@ -13,7 +13,8 @@
 //!      `@<variant>`: the Rust input type the weights are handed over in (VnBest: vec
 //!      slice_copied map filter flat_map from_fn chain deque boxdyn array rev_rev tools;
 //!      VnFirst: vec boxed subslice array tools; `tools` = through coupe_tools::parse_algorithm);
-//!      a weight token `-0` is the float -0.0; threads token: `<n>` = inside pool.install,
+//!      `f64bits`: RAW f64 weights, every weight token is the hex bit pattern (oracle only: the
+//!      model line is `skip`); a weight token `-0` is the float -0.0; threads token: `<n>` = inside pool.install,
 //!      `g` = global pool, `<n>j` = inside a rayon::join task, `<n>s` = inside a scope spawn
 //!      `many best|first <pool> <k> <case>*k`: k calls at once (par_iter().for_each) in one pool
 //! out: `ok <returned count> | <ids afterwards>` | `negative` | `lenmismatch` | `panic …` | `hang`
@@ -56,6 +57,48 @@ struct Case {
     /// positions whose zero weight is the float -0.0
     nz: Vec<bool>,
     ids: Vec<usize>,
+    /// `f64bits`: the weights themselves; `ws` then holds the SAME values exactly, in units of
+    /// 2^E (E = smallest exponent present), so that the oracle's loads and gaps are exact
+    raw: Option<Vec<f64>>,
+}
+
+/// Exact integer image of finite f64 values in units of a common power of two (`None`: not finite,
+/// or the exponents are more than 60 binades apart / the sums would not fit i128).
+fn exact_units(v: &[f64]) -> Option<Vec<i128>> {
+    let mut parts: Vec<(i128, i32)> = Vec::with_capacity(v.len());
+    for &x in v {
+        if !x.is_finite() {
+            return None;
+        }
+        let b = x.to_bits();
+        let e = ((b >> 52) & 0x7ff) as i32;
+        let f = (b & ((1u64 << 52) - 1)) as i128;
+        let (m, e) = if e == 0 { (f, -1074) } else { (f | (1i128 << 52), e - 1075) };
+        parts.push((if x.is_sign_negative() { -m } else { m }, e));
+    }
+    let emin = parts.iter().filter(|p| p.0 != 0).map(|p| p.1).min().unwrap_or(0);
+    let mut out = Vec::with_capacity(v.len());
+    for (m, e) in parts {
+        if m == 0 {
+            out.push(0);
+        } else {
+            let sh = e - emin;
+            if sh > 60 {
+                return None;
+            }
+            out.push(m << sh);
+        }
+    }
+    if v.len() > 1024 {
+        return None;
+    }
+    Some(out)
+}
+
+fn raw_case(algo_ty: &str, threads: usize, v: Vec<f64>, ids: Vec<usize>) -> Option<Case> {
+    let ws = exact_units(&v)?;
+    let n = v.len();
+    Some(Case { ty: algo_ty.to_string(), threads, ctxt: "", ws, nz: vec![false; n], ids, raw: Some(v) })
 }
 
 /// Parsed type token.
@@ -84,14 +127,14 @@ fn ty_spec(ty: &str) -> Option<TySpec<'_>> {
     } else {
         (head, None)
     };
-    if !["i64", "u64", "f64", "i32", "u32", "f32", "usize", "i128"].contains(&base) {
+    if !["i64", "u64", "f64", "i32", "u32", "f32", "usize", "i128", "f64bits"].contains(&base) {
         return None;
     }
     Some(TySpec { base, scale, variant })
 }
 
 fn is_float(base: &str) -> bool {
-    base == "f64" || base == "f32"
+    base == "f64" || base == "f32" || base == "f64bits"
 }
 
 /// the 64-bit type of the same class (signed / unsigned / float)
@@ -105,7 +148,7 @@ fn base64(base: &str) -> &'static str {
 
 fn plain(ty: &str, threads: usize, ws: Vec<i128>, ids: Vec<usize>) -> Case {
     let n = ws.len();
-    Case { ty: ty.to_string(), threads, ctxt: "", ws, nz: vec![false; n], ids }
+    Case { ty: ty.to_string(), threads, ctxt: "", ws, nz: vec![false; n], ids, raw: None }
 }
 
 fn push_case(s: &mut String, c: &Case) {
@@ -115,7 +158,15 @@ fn push_case(s: &mut String, c: &Case) {
     } else {
         write!(s, " {} {}{} {}", c.ty, c.threads, c.ctxt, c.ws.len()).unwrap();
     }
+    if let Some(raw) = &c.raw {
+        for x in raw {
+            write!(s, " {:016x}", x.to_bits()).unwrap();
+        }
+    }
     for (j, w) in c.ws.iter().enumerate() {
+        if c.raw.is_some() {
+            break;
+        }
         if c.nz.get(j).copied().unwrap_or(false) && *w == 0 {
             s.push_str(" -0");
         } else {
@@ -166,6 +217,13 @@ fn in_contract(algo: &str, c: &Case) -> bool {
     if c.nz.iter().any(|&z| z) && !is_float(t.base) {
         return false;
     }
+    if t.base == "f64bits" {
+        // finite weights with a finite total (exactness of the oracle was checked when parsing)
+        return match &c.raw {
+            Some(v) => v.iter().map(|x| x.abs()).sum::<f64>().is_finite() && t.variant != "tools",
+            None => false,
+        };
+    }
     let abs: i128 = c.ws.iter().map(|w| w.abs()).sum();
     let nonneg = c.ws.iter().all(|&w| w >= 0);
     match t.base {
@@ -195,17 +253,28 @@ fn parse_case<'a>(it: &mut impl Iterator<Item = &'a str>) -> Option<Case> {
     let n: usize = it.next()?.parse().ok()?;
     let mut ws = Vec::with_capacity(n.min(1 << 20));
     let mut nz = Vec::with_capacity(n.min(1 << 20));
-    for _ in 0..n {
-        let t = it.next()?;
-        nz.push(t == "-0");
-        ws.push(t.parse::<i128>().ok()?);
+    let mut raw = None;
+    if ty.starts_with("f64bits") {
+        let mut v = Vec::with_capacity(n.min(1 << 20));
+        for _ in 0..n {
+            v.push(f64::from_bits(u64::from_str_radix(it.next()?, 16).ok()?));
+        }
+        ws = exact_units(&v)?;
+        nz = vec![false; n];
+        raw = Some(v);
+    } else {
+        for _ in 0..n {
+            let t = it.next()?;
+            nz.push(t == "-0");
+            ws.push(t.parse::<i128>().ok()?);
+        }
     }
     let m: usize = it.next()?.parse().ok()?;
     let mut ids = Vec::with_capacity(m.min(1 << 20));
     for _ in 0..m {
         ids.push(it.next()?.parse().ok()?);
     }
-    Some(Case { ty, threads, ctxt, ws, nz, ids })
+    Some(Case { ty, threads, ctxt, ws, nz, ids, raw })
 }
 
 enum Op {
@@ -373,6 +442,7 @@ fn call(best: bool, c: &Case, ids: &mut [usize]) -> Result<usize, coupe::Error> 
             c.ws.iter().zip(&c.nz).map(|(&x, &z)| if z && x == 0 { -0.0f32 } else { x as f32 }).collect::<Vec<_>>(),
             ids,
         ),
+        "f64bits" => call_t(best, v, c.raw.clone().expect("raw weights"), ids),
         _ => call_t(best, v, f64_weights(c, t.scale), ids),
     }
 }
@@ -521,7 +591,19 @@ fn judge(ctx: &mut Ctx, algo: &str, c: &Case, res: Caught<Res>) -> (String, Opti
                 let after = loads(&c.ws, &ids, k);
                 let (gb, ga) = (gap(&before), gap(&after));
                 let sa: i128 = after.iter().sum();
-                if ga > gb {
+                // raw floats: the code sees ROUNDED loads; an exact excess within the rounding
+                // error of the load sums ((n+2) ulp of the heaviest load) is counted, not failed
+                let tol: i128 = if c.raw.is_some() {
+                    let mx = before.iter().chain(after.iter()).map(|x| x.abs()).max().unwrap_or(0);
+                    let bits = 128 - mx.leading_zeros() as i32;
+                    (c.ws.len() as i128 + 2) << (bits - 53).max(0)
+                } else {
+                    0
+                };
+                if ga > gb && ga - gb <= tol {
+                    ctx.count(&format!("special:float_gap_worse_within_rounding@{}", algo));
+                }
+                if ga > gb + tol {
                     let show = |l: &[i128]| if l.len() <= 16 { format!("{:?}", l) } else { format!("[{} parts]", l.len()) };
                     verdict = Some((
                         "vn-gap-worse",
@@ -588,6 +670,9 @@ fn judge(ctx: &mut Ctx, algo: &str, c: &Case, res: Caught<Res>) -> (String, Opti
     };
     ctx.count(&format!("{}_{}", algo, out.split(' ').next().unwrap_or("")));
     ctx.count(&format!("type_{}", ty_spec(&c.ty).map(|t| if t.scale.is_some() { "f64_scaled" } else { t.base }).unwrap_or("?")));
+    if c.raw.is_some() {
+        ctx.count("special:raw_float_case");
+    }
     ctx.count(&format!("threads_{}", c.threads));
     if len_ok {
         ctx.count(&format!("parts_{}", if k <= 8 { k.to_string() } else if k <= 64 { "9..64".into() } else if k <= 257 { "65..257".into() } else { "258+".into() }));
@@ -606,6 +691,9 @@ pub fn run_op(ctx: &mut Ctx, op: &str) {
 /// 64-bit type of the same class, a `Vec`, inside `pool.install`.  `None`: the case IS plain.
 fn baseline_of(c: &Case) -> Option<(Case, &'static str)> {
     let t = ty_spec(&c.ty)?;
+    if t.base == "f64bits" {
+        return None;
+    }
     let class = if c.nz.iter().any(|&z| z) {
         "negzero-dependent"
     } else if t.scale.is_some() {
@@ -715,7 +803,10 @@ fn run_op_w(ctx: &mut Ctx, op: &str, watchdog: bool) {
                 if let Some((sig, what)) = verdict {
                     fails.push((sig.to_string(), what));
                 } else {
-                    let seq = canon(&run_impl(&algo, &plain(&c.ty, 1, c.ws.clone(), c.ids.clone()), true));
+                    let mut c1 = c.clone();
+                    c1.threads = 1;
+                    c1.ctxt = "";
+                    let seq = canon(&run_impl(&algo, &c1, true));
                     if seq != out {
                         fails.push((format!("context-dependent@{}", algo), format!("concurrent: {} / sequential: {}", out, seq)));
                     }
@@ -1215,6 +1306,98 @@ fn special_stream(ctx: &mut Ctx) {
     ctx.notes.push("special / plumbing / context stream: -0.0 weights (odd and even counts, a part of only -0.0, all -0.0) compared with the +0.0 run; f64 weights scaled by exact powers of two from 2^-1073 (subnormal weights and totals, the smallest normal on both sides) to 2^971 (f64::MAX/2, totals within 0.2 % of f64::MAX) compared with the unscaled run; every input type the Partition impls accept (VnBest: Vec, slice iterators, arrays, VecDeque, boxed dyn iterator, adaptors with inexact size_hint: filter / flat_map / from_fn / chain; VnFirst: Vec, boxed slice, window of a larger allocation, array) and weight types i32 / u32 / f32 / usize / i128 next to i64 / u64 / f64, and the tools entry point coupe_tools::parse_algorithm(\"vn-best\" | \"vn-first\"), compared with the Vec / 64-bit run; calling contexts: global pool, inside rayon::join, inside a scope spawn, 8-32 (thorough 64) calls at once in pools of 4 and 16 threads compared with the sequential result; six fresh child processes whose first call is a given instantiation followed by other types / algorithms, compared line by line with this process".to_string());
 }
 
+// ------------------------------------------------------------ raw-float ("ping-pong") stream
+
+fn ulps(x: f64, d: i64) -> f64 {
+    f64::from_bits((x.to_bits() as i64 + d) as u64)
+}
+
+/// Non-integer-valued f64 weights whose part loads ROUND: 1.0 and its neighbours, tenths, thirds,
+/// sevenths, at magnitudes 1e-300 … 1e300.  Before commit bff6050 VnBest never returned on
+/// `[1.0, 0.9999999999999999, 1.0]` / `[1,0,0]` (the middle weight went back and forth).
+/// Oracle (exact arithmetic on the f64 values): returns within the watchdog, ids in range, the gap
+/// between the exact part loads is not larger.  The model line is `skip` (see the driver).
+fn raw_float_stream(ctx: &mut Ctx) {
+    let quick = ctx.quick();
+    let mut rng = ctx.rng.clone();
+    let pools = [1usize, 1, 4, 2];
+    let mut no = 0usize;
+    let mut emit = |ctx: &mut Ctx, no: &mut usize, algo: &str, v: Vec<f64>, ids: Vec<usize>| {
+        *no += 1;
+        if let Some(c) = raw_case("f64bits", pools[*no % 4], v, ids) {
+            ctx.count("special:float_ping_pong");
+            run_op(ctx, &format_case(algo, &c));
+        } else {
+            ctx.count("special:float_ping_pong_not_exact_skipped");
+        }
+    };
+    let one = 1.0f64;
+    let near_one = [ulps(one, -2), ulps(one, -1), one, ulps(one, 1), ulps(one, 2)];
+    // exhaustive: 3 weights around 1.0 x all two-part id vectors, at several magnitudes
+    let mags: &[f64] = if quick { &[1.0, 1e-300, 1e300, 3.0] } else { &[1.0, 1e-300, 1e-100, 1e-10, 0.1, 3.0, 1e10, 1e100, 1e300] };
+    for &mag in mags {
+        for a in [1usize, 2, 3] {
+            for b in 0..5usize {
+                for c in [1usize, 2, 3] {
+                    for idbits in 0..8usize {
+                        let v = vec![near_one[a] * mag, near_one[b] * mag, near_one[c] * mag];
+                        let ids: Vec<usize> = (0..3).map(|j| (idbits >> j) & 1).collect();
+                        for algo in ALGOS {
+                            emit(ctx, &mut no, algo, v.clone(), ids.clone());
+                        }
+                    }
+                }
+            }
+        }
+    }
+    // exhaustive: 4 weights from tenths / thirds, two and three parts
+    let frac = [0.1f64, 0.2, 0.3, 1.0 / 3.0, 2.0 / 3.0, 0.7];
+    let nfr = if quick { 4 } else { 6 };
+    let mut w = vec![0usize; 4];
+    loop {
+        let v: Vec<f64> = w.iter().map(|&j| frac[j]).collect();
+        for idv in [[0usize, 1, 0, 1], [1, 0, 0, 0], [0, 0, 1, 1], [0, 1, 2, 0], [2, 0, 0, 1], [0, 0, 0, 1]] {
+            for algo in ALGOS {
+                emit(ctx, &mut no, algo, v.clone(), idv.to_vec());
+            }
+        }
+        if !next_vec(&mut w, nfr) {
+            break;
+        }
+    }
+    // random: k/10, k/3, k/7 and 1-ulp perturbations at decimal magnitudes 1e-300 … 1e300
+    for _ in 0..ctx.budget(1500, 30000) {
+        let long = rng.chance(1, 5);
+        let n = 3 + rng.usize(if long { 40 } else { 9 });
+        let parts = 2 + rng.usize(3);
+        let mag = match rng.usize(8) {
+            0 => 1e-300,
+            1 => 1e300 / 64.0,
+            2 => 10f64.powi(rng.range(-290, 290) as i32),
+            3 => 2f64.powi(rng.range(-1000, 1000) as i32),
+            _ => 1.0,
+        };
+        let style = rng.usize(5);
+        let v: Vec<f64> = (0..n)
+            .map(|_| {
+                let x = match style {
+                    0 => rng.range(0, 12) as f64 / 10.0,
+                    1 => rng.range(0, 7) as f64 / 3.0,
+                    2 => rng.range(1, 9) as f64 / 7.0,
+                    3 => ulps(1.0, rng.range(-3, 3)),
+                    _ => *rng.pick(&[0.1, 0.2, 0.3, 1.0 / 3.0, 1.0, 0.9999999999999999, 0.5, 0.7]),
+                };
+                x * mag
+            })
+            .collect();
+        let ids: Vec<usize> = (0..n).map(|j| if j == n - 1 { parts - 1 } else { rng.usize(parts) }).collect();
+        let algo = *rng.pick(&ALGOS);
+        emit(ctx, &mut no, algo, v, ids);
+    }
+    ctx.rng = rng;
+    ctx.notes.push("raw-float stream: non-integer-valued f64 weights whose part loads round (1.0 and its 1-2 ulp neighbours, tenths, thirds, sevenths, magnitudes 1e-300..1e300; exhaustive over 3 weights around 1.0 x 2-part ids and over 4 weights from the tenths/thirds x 6 id vectors, plus random vectors of 3-42 weights), under the 60 s watchdog; oracle in exact arithmetic on the f64 values (terminates, ids in range, gap not larger); the model declines these (rounded part loads depend on rayon's summation order)".to_string());
+}
+
 fn large_stream(ctx: &mut Ctx) {
     let quick = ctx.quick();
     let mut rng = ctx.rng.clone();
@@ -1387,6 +1570,7 @@ pub fn generate(ctx: &mut Ctx) {
     large_stream(ctx);
     half_range_stream(ctx);
     special_stream(ctx);
+    raw_float_stream(ctx);
 
     // ---- exhaustive sub-space: weights 0..=3, ids 0..=2, every length up to maxlen,
     //      both algorithms on every case; weight type and pool size rotate with the case number
